@@ -78,8 +78,8 @@ def parser_failure_family(rng, case):
         first['swallow'] = True
     main_groups = case['lib'][0][1]
     for g in main_groups:
-        if g[0] == 'steps' and g[1] is not None:
-            g[1] = [first] + g[1][1:] + [{'body': 'probe', 'in': [['ptag', 'main/steps/after']]}]
+        if g[0] == 'steps':
+            g[1] = [first] + (g[1] or [])[1:] + [{'body': 'probe', 'in': [['ptag', 'main/steps/after']]}]
             break
     else:
         main_groups.insert(0, ['steps', [first, {'body': 'probe', 'in': [['ptag', 'main/steps/after']]}]])
